@@ -389,6 +389,15 @@ OTHER_FILES = {"b298": "isosteric/BAX 1500 - Isosteric Heat - 298.json", "b323":
 
 
 MATERIAL = "purity_mat"
+REPRESENTATIONS = {
+    "degC": {"celsius": True},
+    "relative,mass/volume,degC": {"pressure": {"mode_to": "relative"}, "material": {"basis_to": "volume", "unit_to": "cm3"},
+                                  "loading": {"basis_to": "mass", "unit_to": "mg"}, "celsius": True},
+    "relative%,fraction": {"pressure": {"mode_to": "relative%"}, "loading": {"basis_to": "fraction"}},
+    "kPa,percent,molar material": {"pressure": {"unit_to": "kPa"}, "material": {"basis_to": "molar", "unit_to": "mmol"}, "loading": {"basis_to": "percent"}},
+    "Pa,volume_liquid,kg,degC": {"pressure": {"unit_to": "Pa"}, "material": {"unit_to": "kg"}, "loading": {"basis_to": "volume_liquid", "unit_to": "cm3"}, "celsius": True},
+    "torr,volume_gas": {"pressure": {"unit_to": "torr"}, "loading": {"basis_to": "volume_gas", "unit_to": "cm3"}},
+}
 
 
 def own_material():
@@ -433,9 +442,24 @@ class Fixtures:
         return make_point(s, "nitrogen", MATERIAL, 77.344, p, l, branch=[0] * 8 + [1] * 6,
                           extra={"enthalpy": [15.0 - 0.6 * i for i in range(14)]}, meta={"operator": "verif", "batch": 7, "ratio": 0.25})
 
+    def rep(self, name):
+        """the synthetic two-branch isotherm (extra column, metadata, material with density and molar mass) permanently converted
+        into a non-default representation; a small covering set of temperature unit x pressure mode x loading basis x material basis"""
+        iso = self.syn()
+        steps = REPRESENTATIONS[name]
+        if "pressure" in steps:
+            iso.convert_pressure(**steps["pressure"])
+        if "material" in steps:
+            iso.convert_material(**steps["material"])
+        if "loading" in steps:
+            iso.convert_loading(**steps["loading"])
+        if steps.get("celsius"):
+            iso.convert_temperature("°C")
+        return iso
+
     def model(self, key, name, **kw):
         import pygaps
-        base = self.syn() if key == "syn" else self.load(key)
+        base = self.syn() if key == "syn" else (self.rep(key[4:]) if key.startswith("rep:") else self.load(key))
         return pygaps.ModelIsotherm.from_pointisotherm(base, model=name, **kw)
 
     def kernels(self):
@@ -774,6 +798,56 @@ def cases(fx, tier, seed):
     for mname in ("Langmuir", "Toth") + (("DSLangmuir", "Quadratic", "JensenSeaton", "Freundlich", "BET") if thorough else ()):
         for site, tag, f in macc:
             add(f"ModelIsotherm.{site}", f"{mname}(syn):{tag}", lambda mname=mname: {"isotherm": fx.model("syn", mname)}, lambda o, f=f: f(o["isotherm"]))
+
+    # ---- the cheap entry points again on non-default representations (degC, relative / relative% pressure, mass / volume / fraction /
+    #      percent loading, volume / molar material, two branches, extra column) and on model isotherms fitted to them
+    reps = list(REPRESENTATIONS)
+    rep_fixtures = [("rep " + r, (lambda r=r: {"isotherm": fx.rep(r)})) for r in reps]
+    rep_fixtures += [("model Langmuir(rep degC)", lambda: {"isotherm": fx.model("rep:degC", "Langmuir")}),
+                     ("model Toth(rep relative,mass/volume,degC)", lambda: {"isotherm": fx.model("rep:relative,mass/volume,degC", "Toth")})]
+    plotted = set(n for n, _ in rep_fixtures) if thorough else {rep_fixtures[seed % len(reps)][0], rep_fixtures[(seed + 1) % len(reps)][0], rep_fixtures[-1 - seed % 2][0]}
+    for tag, b in rep_fixtures:
+        is_model = tag.startswith("model")
+        add("isotherm_to_json", tag, b, lambda o: o["isotherm"].to_json(), cache=False)
+        add("isotherm_to_csv", tag, b, lambda o: o["isotherm"].to_csv(), cache=False)
+        add("isotherm_to_aif", tag, b, lambda o: o["isotherm"].to_aif(), cache=False)
+        add("isotherm_to_xl", tag, b, to_file("to_xl", "xls", read_xls), cache=False)
+        add("to_dict", tag, b, lambda o: o["isotherm"].to_dict(), cache=False)
+        add("str/repr", tag, b, lambda o: [str(o["isotherm"]), repr(o["isotherm"])], cache=False)
+        add("isotherm_to_db", tag, b, to_db(), cache=False)
+        if tag in plotted:
+            add("print_info", tag, b, lambda o: o["isotherm"].print_info(), cache=False)
+            add("isotherm.plot", tag + ":foreign units", b, lambda o: o["isotherm"].plot(pressure_mode="absolute", pressure_unit="bar", loading_basis="molar", loading_unit="mmol",
+                                                                                      material_basis="mass", material_unit="g"), cache=False)
+        NATIVE = dict(loading_basis="molar", loading_unit="mmol", material_basis="mass", material_unit="g")
+        if is_model:
+            racc = [("pressure", lambda i: i.pressure(points=5, pressure_mode="absolute", pressure_unit="bar")),
+                    ("loading", lambda i: i.loading(points=5, **NATIVE)),
+                    ("loading_at", lambda i: i.loading_at(0.3, pressure_mode="absolute", pressure_unit="bar", **NATIVE)),
+                    ("pressure_at", lambda i: i.pressure_at(3.0, pressure_mode="absolute", pressure_unit="bar", **NATIVE)),
+                    ("spreading_pressure_at", lambda i: i.spreading_pressure_at(0.3, pressure_mode="absolute", pressure_unit="bar"))]
+        else:
+            racc = [("pressure", lambda i: i.pressure(branch="des", pressure_mode="absolute", pressure_unit="bar")),
+                    ("loading", lambda i: i.loading(branch="ads", **NATIVE)),
+                    ("other_data", lambda i: i.other_data("enthalpy")),
+                    ("loading_at", lambda i: i.loading_at(0.3, branch="des", pressure_mode="absolute", pressure_unit="bar", **NATIVE)),
+                    ("pressure_at", lambda i: i.pressure_at(3.0, pressure_mode="absolute", pressure_unit="bar", **NATIVE)),
+                    ("spreading_pressure_at", lambda i: i.spreading_pressure_at(0.3, pressure_mode="absolute", pressure_unit="bar"))]
+        cls = "ModelIsotherm" if is_model else "PointIsotherm"
+        for site, f in racc:
+            add(f"{cls}.{site}", tag + " -> bar, mmol/g", b, lambda o, f=f: f(o["isotherm"]), cache=False)
+        if not is_model:
+            add("area_BET", tag, b, lambda o: pgc.area_BET(o["isotherm"]), cache=False)
+            add("t_plot", tag, b, lambda o: pgc.t_plot(o["isotherm"]), cache=False)
+            add("psd_mesoporous", tag, b, lambda o: pgc.psd_mesoporous(o["isotherm"]), cache=False)
+            add("model_iso", tag + ":Langmuir", b, lambda o: pgm.model_iso(o["isotherm"], model="Langmuir"), cache=False)
+            add("enthalpy_sorption_whittaker", tag + ":Langmuir", b, lambda o: pgc.enthalpy_sorption_whittaker(o["isotherm"], model="Langmuir", loading=[2.0, 4.0]), cache=False)
+            add("initial_enthalpy_point", tag, b, lambda o: pgc.initial_enthalpy_point(o["isotherm"], "enthalpy"), cache=False)
+    add("iast_point_fraction", "rep degC + model Langmuir(rep degC)", lambda: {"isotherm0": fx.rep("degC"), "isotherm1": fx.model("rep:degC", "Langmuir")},
+        lambda o: pgi.iast_point_fraction(pair(o), [0.5, 0.5], 0.5), cache=False)
+    add("plot_iso", "rep degC + rep relative%,fraction + model(rep degC)",
+        lambda: {"isotherm0": fx.rep("degC"), "isotherm1": fx.rep("relative%,fraction"), "isotherm2": fx.model("rep:degC", "Langmuir")},
+        lambda o: plot_iso([o["isotherm0"], o["isotherm1"], o["isotherm2"]], pressure_mode="relative", loading_basis="mass", loading_unit="mg"), cache=False)
 
     # ---- adsorbate / material objects passed directly
     add("Adsorbate.to_dict", "nitrogen", lambda: {"adsorbate": pygaps.Adsorbate.find("nitrogen")}, lambda o: o["adsorbate"].to_dict(), cache=False)
